@@ -97,6 +97,9 @@ func setup() *world {
 type activity struct {
 	name string
 	run  func(w *world)
+	// second: a second instance of an export path, paired only with its first instance (two overlapping
+	// scrapes, a scrape during a push)
+	second string
 }
 
 var activities = []activity{
@@ -104,12 +107,12 @@ var activities = []activity{
 		w.p.Line("f", "a 1")
 		w.p.Line("f", "b 2")
 		w.p.Line("f", "del x")
-	}},
+	}, ""},
 	{"G", func(w *world) {
 		if err := w.store.Gc(); err != nil {
 			w.errs = append(w.errs, "gc: "+err.Error())
 		}
-	}},
+	}, ""},
 	{"Xprom", func(w *world) {
 		ch := vrt.MkU(make(chan prometheus.Metric, 1))
 		done := vrt.MkU(make(chan struct{}, 1))
@@ -144,29 +147,29 @@ var activities = []activity{
 		w.e.Collect(ch)
 		close(vrt.Cl(ch))
 		<-vrt.R(done)
-	}},
+	}, ""},
 	{"Xjson", func(w *world) {
 		r := httptest.NewRecorder()
 		w.e.HandleJSON(r, httptest.NewRequest("GET", "/json", nil))
 		w.outs["json"] = r.Body.String()
-	}},
+	}, ""},
 	{"Xvarz", func(w *world) {
 		r := httptest.NewRecorder()
 		w.e.HandleVarz(r, httptest.NewRequest("GET", "/varz", nil))
 		w.outs["varz"] = r.Body.String()
-	}},
+	}, ""},
 	{"Xgraphite", func(w *world) {
 		r := httptest.NewRecorder()
 		w.e.HandleGraphite(r, httptest.NewRequest("GET", "/graphite", nil))
 		w.outs["graphite"] = r.Body.String()
-	}},
+	}, ""},
 	{"Xpush", func(w *world) {
 		var b strings.Builder
 		if err := w.e.VerifWriteSocket(&b, "statsd"); err != nil {
 			w.errs = append(w.errs, "push: "+err.Error())
 		}
 		w.outs["statsd"] = b.String()
-	}},
+	}, ""},
 	{"R", func(w *world) {
 		p2, err := mt.Load("prog", src("# edited\n"), mt.Opts{})
 		if err != nil {
@@ -179,13 +182,42 @@ var activities = []activity{
 			}
 		}
 		p2.Line("f", "a 1")
-	}},
+	}, ""},
+	{"Xgraphite2", func(w *world) {
+		r := httptest.NewRecorder()
+		w.e.HandleGraphite(r, httptest.NewRequest("GET", "/graphite", nil))
+		w.outs["graphite2"] = r.Body.String()
+	}, "Xgraphite"},
+	{"XpushGraphite", func(w *world) {
+		var b strings.Builder
+		if err := w.e.VerifWriteSocket(&b, "graphite"); err != nil {
+			w.errs = append(w.errs, "push: "+err.Error())
+		}
+		w.outs["graphite2"] = b.String()
+	}, "Xgraphite"},
+	{"Xvarz2", func(w *world) {
+		r := httptest.NewRecorder()
+		w.e.HandleVarz(r, httptest.NewRequest("GET", "/varz", nil))
+		w.outs["varz2"] = r.Body.String()
+	}, "Xvarz"},
+	{"Xjson2", func(w *world) {
+		r := httptest.NewRecorder()
+		w.e.HandleJSON(r, httptest.NewRequest("GET", "/json", nil))
+		w.outs["json2"] = r.Body.String()
+	}, "Xjson"},
+	{"Xpush2", func(w *world) {
+		var b strings.Builder
+		if err := w.e.VerifWriteSocket(&b, "statsd"); err != nil {
+			w.errs = append(w.errs, "push: "+err.Error())
+		}
+		w.outs["statsd2"] = b.String()
+	}, "Xpush"},
 	// the program deletes the two tuples at the front of the metric (started after every reader, so that with no
 	// deviation at all it runs whenever the reader first blocks)
 	{"D", func(w *world) {
 		w.p.Line("f", "del z")
 		w.p.Line("f", "del y")
-	}},
+	}, ""},
 }
 
 var varzC = regexp.MustCompile(`(?m)^c\{k=a,prog=prog,[^}]*\} (\d+)$`)
@@ -203,6 +235,9 @@ func main() {
 		for j := i; j < n; j++ {
 			if i == j || (activities[i].name == "V" && activities[j].name == "D") {
 				continue // one VM is driven by one goroutine; two reloads of one program are serialised by the loader
+			}
+			if activities[i].second != "" || (activities[j].second != "" && activities[j].second != activities[i].name) {
+				continue
 			}
 			scens = append(scens, scen{activities[i].name + "|" + activities[j].name, []int{i, j}})
 		}
@@ -288,7 +323,11 @@ func main() {
 						}
 					}
 				}
-				if out, ok := w.outs["graphite"]; ok {
+				for _, k := range []string{"graphite", "graphite2"} {
+					out, ok := w.outs[k]
+					if !ok {
+						continue
+					}
 					for _, pr := range []string{"before", "prog", "zafter"} {
 						if n := strings.Count(out, pr+".c.k.a "); n != 1 {
 							return fmt.Sprintf("export-pass %s graphite prog=%s x%d", s.name, pr, n), fmt.Sprintf("one /graphite pass lists c.k.a of program %q %d times", pr, n), "bad-export-pass"
